@@ -684,7 +684,7 @@ func TestVerifC19Cmd(t *testing.T) {
 			}
 		}
 	}
-	// free-form fields: the project's name, its version, the ignore patterns (a sequence: order and repetitions count) and
+	// free-form fields: the project's name, its version, the ignore patterns (a sequence: order, repetitions - adjacent or not - and empty patterns count) and
 	// the requirement names are text the commands must carry over verbatim.  Text of the domains of the RESTRICTED fields
 	// (versions valid but not canonical, near-versions, unclean paths) and of plausible normalisers (padding, case,
 	// equivalent Unicode spellings, text that reads as another TOML type, key words, references) in all of them,
@@ -693,7 +693,7 @@ func TestVerifC19Cmd(t *testing.T) {
 	free := []string{"v1.2.3+build.7", "v2", "v1.4", "v3.1.0+vendor.2", "v1.2.3-rc.1+exp.sha.5114f85", "1.2.3", "V1.0.0", "v01.2.3", "a//b", "./a", "a/", "a/../b", "a@v1", "**/testdata/", " x ", "x\n", "\tx",
 		"Dawn", "e\u0301", "\u212b", "\ufb01", "true", "1.0", "007", "1979-05-27", "requirements", "a.b.c", "$HOME", "https://github.com/a/b.git", "github.com/A/B"}
 	for i, s := range free {
-		c := &project.Config{Name: s, Version: s, Ignore: []string{s, "b", "a", s, ""}, Requirements: map[string]project.RequirementConfig{s: req(A, "v1.1.0"), "beta": req(B, "v1.0.0")}}
+		c := &project.Config{Name: s, Version: s, Ignore: []string{s, s, "b", "a", s, "", ""}, Requirements: map[string]project.RequirementConfig{s: req(A, "v1.1.0"), "beta": req(B, "v1.0.0")}}
 		for j, k := range []cl{{cmd: "tidy"}, {cmd: "get", update: true}, {cmd: "get", args: []string{A + "@v1.2.0"}}} {
 			if j == i%3 { // two of the three command lines per string
 				continue
